@@ -86,7 +86,7 @@ theorem dnc_by_identity (X : Ctx) (hX : NoClassDnc X) (h : Heap) (i j c : Nat) (
     (hv : alGet a fs = some v) :
     let out := deepcopy X (.obj i) (start h φ b)
     out.1 = .ok (.obj j) →
-      ∃ fs', out.2.heap[j]? = some (.inst c t fs') ∧ alGet a fs' = some v ∧
+      ∃ fs', out.2.heap[j]? = some (.inst c false fs') ∧ alGet a fs' = some v ∧
         fs'.map (fun av => av.1) = fs.map (fun av => av.1) ∧ h.length ≤ j := by
   intro out hok
   have hrun : deepcopy X (.obj i) (start h φ b) = (.ok (.obj j), out.2) := by
